@@ -16,10 +16,11 @@ import (
 )
 
 type recAction struct {
-	K    string `json:"k"`
-	M    string `json:"m,omitempty"`
-	Slot int    `json:"slot"`
-	Mask int    `json:"mask,omitempty"`
+	K    string     `json:"k"`
+	M    string     `json:"m,omitempty"`
+	Slot int        `json:"slot"`
+	Mask int        `json:"mask,omitempty"`
+	Seq  [][]string `json:"seq,omitempty"` // byzantine sends: per honest slot, the keys of the inputs in order
 }
 
 func recordActions(e *Engine, tr []Action) []recAction {
@@ -27,8 +28,16 @@ func recordActions(e *Engine, tr []Action) []recAction {
 	for i, a := range tr {
 		out[i] = recAction{K: string(a.Kind), Slot: int(a.Slot), Mask: int(a.Mask)}
 		switch a.Kind {
-		case 'd', 'r', 'b', 'B', 'w', 'v', 'x':
+		case 'd', 'r', 'b', 'B', 'w', 'v', 'l', 'x':
 			out[i].M = e.msgs.get(a.Msg).Key
+		}
+		if a.seq != nil {
+			out[i].Seq = make([][]string, 3)
+			for j := 0; j < 3; j++ {
+				for _, id := range a.seq[j] {
+					out[i].Seq[j] = append(out[i].Seq[j], e.msgs.get(id).Key)
+				}
+			}
 		}
 	}
 	return out
@@ -74,7 +83,11 @@ func (s *Search) resolve(key string) *Msg {
 	case "V":
 		if len(f) == 7 && num(f[4]) == sys.byz {
 			if b, ok := bid(f[5]); ok {
-				m = s.byzVote(int64(num(f[1])), num(f[2]), typeOf(f[3]), b)
+				for variant := 0; variant < nStamps; variant++ { // the key names the copy by its signature
+					if m = s.byzVote(int64(num(f[1])), num(f[2]), typeOf(f[3]), b, variant); m.Key == key {
+						break
+					}
+				}
 			}
 		}
 	case "P":
@@ -172,13 +185,25 @@ func replayFile(r *vk.Run, sys *System) {
 				if a.Mask&(1<<j) == 0 {
 					continue
 				}
+				if len(ra.Seq) == 3 {
+					for _, key := range ra.Seq[j] {
+						x := s.resolve(key)
+						if x == nil {
+							r.HarnessError("step %d: message %s does not exist at this point of the replay", i, key)
+						}
+						fmt.Printf("      -> n%d: %s\n", j, x.Key)
+						apply(j, x.id)
+					}
+					fmt.Printf("      %s\n", show(j))
+					continue
+				}
 				if a.Kind == 'B' {
 					apply(j, e.msgs.intern(sys.claimMsg(sys.byz, m.H, m.R, m.T, m.BID, true)).id)
 				}
 				apply(j, a.Msg)
 				fmt.Printf("      %s\n", show(j))
 			}
-		case '|':
+		case '|', '~':
 			nodes[3] = nil
 		}
 	}
